@@ -238,13 +238,28 @@ func (r *scopeRegistry) Subscope(parent *scope, prefix string, tags map[string]s
 	subscopeBucket.mu.Lock()
 	defer subscopeBucket.mu.Unlock()
 
-	// n.b. A closed scope still registered here is in the middle of being
-	//      removed (it has already been reported): do not hand it out again.
-	if s, ok := r.lockedLookup(subscopeBucket, sanitizedKey); ok && (!s.closed.Load() || s.testScope) {
-		if _, ok = r.lockedLookup(subscopeBucket, unsanitizedKey); !ok {
-			subscopeBucket.s[unsanitizedKey] = s
+	if s, ok := r.lockedLookup(subscopeBucket, sanitizedKey); ok {
+		if !s.closed.Load() || s.testScope {
+			if _, ok = r.lockedLookup(subscopeBucket, unsanitizedKey); !ok {
+				subscopeBucket.s[unsanitizedKey] = s
+			}
+			return s
 		}
-		return s
+
+		// n.b. A closed scope must not be handed out again. It was either
+		//      closed after the probe under the read lock above, or it is
+		//      being removed key by key: report what it may still hold
+		//      before it is replaced below.
+		switch {
+		case parent.reporter != nil:
+			s.report(parent.reporter)
+		case parent.cachedReporter != nil:
+			s.cachedReport()
+		}
+		s.clearMetrics()
+		if old, ok := r.lockedLookup(subscopeBucket, unsanitizedKey); ok && old == s {
+			delete(subscopeBucket.s, unsanitizedKey)
+		}
 	}
 
 	allTags := mergeRightTags(parent.tags, tags)
